@@ -14,6 +14,9 @@ mod rdfa;
 mod runner;
 mod tape;
 
+mod p_c11;
+mod p_c12;
+mod p_c15;
 mod p_c20;
 
 use runner::{Cx, EnumSink, Known, PropFn, PtArgs, Stats};
@@ -26,12 +29,18 @@ pub struct Prop {
 }
 
 fn registry() -> Vec<Prop> {
-    vec![Prop {
+    vec![
+        Prop { id: "C11", run: p_c11::run, tape_len: 96, enumerate: Some(|th, part, parts, sink| p_c11::enumerate(if th { 5 } else { 4 }, part, parts, sink)) },
+        Prop { id: "C12", run: p_c12::run, tape_len: 128, enumerate: Some(|th, part, parts, sink| if th { p_c12::enumerate(4, 2, part, parts, sink) } else { p_c12::enumerate(3, 2, part, parts, sink) }) },
+        Prop { id: "C15", run: p_c15::run, tape_len: 64, enumerate: Some(|th, part, parts, sink| p_c15::enumerate(if th { 40 } else { 24 }, part, parts, sink)) },
+        Prop {
         id: "C20",
         run: p_c20::run,
         tape_len: 64,
         enumerate: Some(|th, part, parts, sink| p_c20::enumerate(if th { 8 } else { 5 }, part, parts, sink)),
     }]
+    .into_iter()
+    .collect()
 }
 
 fn arg_val(args: &[String], name: &str) -> Option<String> {
